@@ -71,6 +71,12 @@ def generate(rng, tier):
             clobber = ["NS", "4"] + [x for _ in range(6) for x in ("NR", "0", "1", C.fh(rng.range(-8, 8) / 4.0))] + ["NS", "0"]
             t = first + clobber + h + R.full_rect_path(vb)
         g["repeated-helper"].append("PIPE 0 0 32 32 " + " ".join(t))
+    # through DestinationLogger (which forwards the selector getters), after incrementing register writes
+    g["through-logger"] = []
+    for sel in range(0, 64, 3):
+        for n in (1, 2, 3):
+            t = ["R"] + vb + ["-"] + prior(rng, sel, True) + helper(rng, n) + ["rc", "rn"] + R.full_rect_path(vb)
+            g["through-logger"].append("PIPE 0 0 32 32 LOG " + " ".join(t))
     for _ in range(3000 if tier == "quick" else 100000):
         v = R.viewbox(rng)
         rc = R.rect(rng)
